@@ -35,7 +35,8 @@ def run(ck):
     ck.clause("C01.4", "per-peak de-duplication by query label and by reference label, keeping the nearest")
     ck.clause("C01.5", "second-pass label numbers refer to labels of the whole query (fragment offset = labels cut from the front; as C02.4/C02.5)")
     from .c02 import fragments, numbering
-    fragments(ck, "C01.5")
+    from ..report import RuleView as _RV015
+    fragments(_RV015(ck, {"C01.5": "C01.5"}, not_constructs=(":length",)), "C01.5")      # a fragment's length names no label
     numbering(ck, "C01.5")
     from . import c15, c08
     ck.clause("C01.6", "overlapping segments are cut at indices from their own index tables (as C15.5)")
